@@ -79,7 +79,7 @@ func runC15(c *Ctx) {
 					return true
 				}
 				want := types.ExprString(se.X) + "." + mu.Name()
-				held := fc.heldAt(se)
+				held := normHeld(fc.heldAt(se), accessIsWrite(b.Body, se))
 				key := fmt.Sprintf("%s|access:%s", funcKey(p, b.Decl), fv.Name())
 				c.check(held[want], "C15.R1", key, c.pos(se.Pos()), "under "+want,
 					fmt.Sprintf("%s accesses %s without holding %s %s: concurrent workers race on the map", funcKey(p, b.Decl), fv.Name(), want, heldList(held)))
